@@ -133,10 +133,10 @@ func (n *Node[K, V]) min() *Node[K, V] {
 // Delete removes a node defined by its key from the tree structure.
 func (b *BsTree[K, V]) Delete(key K) error {
 	var err error
-	b.mu.RLock()
+	b.mu.Lock()
 	b.root, err = b.root.delete(b, key)
 	b.size--
-	b.mu.RUnlock()
+	b.mu.Unlock()
 
 	return err
 }
